@@ -336,10 +336,10 @@ Proof.
             | Err x => if is_pe (xk x) || is_index (xk x) then k (inr (loc, RPR acc)) else foe o
             | _ => Ret Div end)).
   { intros [l r|x|] Ho; try ret. destruct (is_pe (xk x) || is_index (xk x)); [apply S_ok|apply Hfoe; assumption]. }
-  apply S_check_ender; [exact Hn|]. intros [o|] Ho; [apply Hstop; assumption|].
   apply S_skip_ignorables; [exact Hi| |].
   - intros x Hx. apply (Hstop (Err x)). exact Hx.
-  - intros l. unfold call. callc Hb.
+  - intros l. apply S_check_ender; [exact Hn|]. intros [o|] Ho; [apply Hstop; assumption|].
+    unfold call. callc Hb.
     + match goal with |- context [Nat.eqb ?a loc] => destruct (Nat.eqb a loc) end; [ret|apply IH].
     + apply (Hstop (Err x)). assumption.
     + ret.
